@@ -391,3 +391,44 @@ def csum_objects(img, max_dir_blocks=4, max_inodes=None):
         except Malformed:
             pass
     return out
+
+# ---------------------------------------------------------------------------------------------- metadata block set
+def metadata_blocks(img):
+    """set of block numbers that hold filesystem metadata (what a metadata-only image must preserve)"""
+    M = set()
+    for g in range(img.groups):
+        M.update(img.group_overhead_blocks(g))
+        gd = img.gd[g]
+        M.add(gd.block_bitmap); M.add(gd.inode_bitmap)
+        M.update(range(gd.inode_table, gd.inode_table + img.itb_per_group))
+    if img.incompat & INCOMPAT_MMP and img.sb.s_mmp_block:
+        M.add(img.sb.s_mmp_block)
+    special = set([img.sb.s_journal_inum] if (img.compat & COMPAT_HAS_JOURNAL) else [])
+    if img.ro & RO_QUOTA:
+        special.update(x for x in (img.sb.s_usr_quota_inum, img.sb.s_grp_quota_inum, img.sb.s_prj_quota_inum) if x)
+    if img.compat & COMPAT_ORPHAN_FILE and img.sb.s_orphan_file_inum:
+        special.add(img.sb.s_orphan_file_inum)
+    if img.compat & COMPAT_RESIZE_INODE:
+        special.add(7)
+    for ino in range(1, img.inodes_count + 1):
+        g = (ino - 1) // img.ipg
+        bm = img.inode_bitmap(g)
+        if bm is None: continue
+        idx = (ino - 1) % img.ipg
+        if not (bm[idx >> 3] >> (idx & 7)) & 1: continue
+        I = img.inode(ino)
+        if I.i_mode == 0 or (I.i_links_count == 0 and ino >= img.first_ino): continue
+        if ino < img.first_ino and ino != 2 and ino not in special: continue
+        try:
+            if I.file_acl: M.add(I.file_acl)
+            if I.i_flags & FL_INLINE_DATA: continue
+            if not (I.is_dir() or I.is_reg() or I.is_lnk()): continue
+            if I.is_lnk() and img.fast_symlink(I): continue
+            blocks, meta = img.file_blocks(I)
+            M.update(meta)
+            if I.is_dir() or ino in special or I.is_lnk():
+                M.update(p for l, p, u in blocks)
+        except Malformed:
+            pass
+    M.discard(0)
+    return M
